@@ -325,12 +325,23 @@ func (va *validAnalysis) invalidClassCheck(fn *ssa.Function, pi int) (string, bo
 				tainted = true
 			}
 		}
+		// a look-up made with a name that was only derived from the root (path.Dir, path.Join, Clean…): its outcome
+		// says nothing about the root's validity, and its error — not-exist, not-a-directory — is not ErrInvalid-class
+		onlyTransformed := tainted
+		for _, a := range cc.Args {
+			if lv[a] == tUnchanged {
+				onlyTransformed = false
+			}
+		}
 		if cc.IsInvoke() {
 			if va.isFSIface(cc.Value.Type()) {
 				for _, a := range cc.Args {
 					if isStringish(a.Type()) && lv[a] == tUnchanged {
 						return vOK
 					}
+				}
+				if onlyTransformed {
+					return vBad
 				}
 			}
 			if tainted {
@@ -355,6 +366,9 @@ func (va *validAnalysis) invalidClassCheck(fn *ssa.Function, pi int) (string, bo
 					return vOK
 				}
 			}
+		}
+		if onlyTransformed && va.isLookup(callee) {
+			return vBad
 		}
 		if tainted {
 			return vUnknown
@@ -519,6 +533,11 @@ func (va *validAnalysis) invalidClassCheck(fn *ssa.Function, pi int) (string, bo
 						// a memo-table look-up with a name-derived key: both outcomes are genuinely possible
 						// (a hit for an invalid spelling is exactly the defect to find), not an untracked value
 						if ssax.CalleeIs(cl, "sync", "(*Map).Load") {
+							continue
+						}
+						// a look-up with a derived name (parent directory…): both outcomes are possible whatever the
+						// root's validity; its error class is judged where it is returned
+						if callClass(cl) == vBad {
 							continue
 						}
 					}
@@ -1047,4 +1066,20 @@ func alwaysInvalidClass(fn *ssa.Function, depth int) bool {
 	}
 	alwaysInvMemo[fn] = ok && any
 	return ok && any
+}
+
+// isLookup: a module method that answers a name with (value, error) — an FS-level method of a file-system type or an
+// unexported look-up of one (getFile, Stat…): its error for a valid-looking derived name is not-exist/not-dir class.
+func (va *validAnalysis) isLookup(callee *ssa.Function) bool {
+	if callee == nil || callee.Signature.Recv() == nil {
+		return false
+	}
+	if errLikeIndex(callee.Signature) < 0 {
+		return false
+	}
+	rt := callee.Signature.Recv().Type()
+	if fsI := stdIface(va.p, "io/fs", "FS"); fsI != nil && (types.Implements(rt, fsI) || types.Implements(types.NewPointer(rt), fsI)) {
+		return true
+	}
+	return false
 }
